@@ -32,6 +32,7 @@ EXTENDS Integers, Sequences, FiniteSets, TLC
 CONSTANTS Streams, Classes, TsClasses,
           Cols, ClassKinds,    \* [Classes -> [Cols -> Kinds]]
           ClassX, ClassT,      \* [Classes -> Seq(Int)] (<<>> = absent, <<n>>), [Classes -> Seq(Words)] (<<>> = absent)
+          ClassXS,             \* [Classes -> BOOLEAN]: x is written as a numeric string ("7") instead of a JSON number
           ClassM,              \* [Classes -> [f: BOOLEAN, v: Int]]  the measure field m every event carries: v = its
                                \*   value in HALVES (so 2.5 is 5), f = written as a JSON float (v odd) or as an integer
           LowerOf,             \* [Words -> Words]  (lower-casing of a word)
@@ -117,8 +118,18 @@ RangeMayMatch(S, q) ==
          [] q.op = "ne" -> ~(NeSkipsConstBlock /\ lo = hi /\ lo = q.c)
          [] q.op = "gt" -> q.c < hi
          [] q.op = "lt" -> q.c > lo
+(* Numbers that arrive as numeric strings.  A block whose x values all arrived as strings keeps a text column
+   (bloom, no range index; compared by value at search time): a numeric comparison never excludes it.  As soon as
+   one x of the block arrived as a JSON number, the flush re-encodes the strings as numbers
+   (consolidateColumnTypes -> convertColumnToNumbers) and has to widen the block's range index with every
+   converted value: the index then covers number-born and string-born values alike. *)
+XSOf(id) == ClassXS[EvIn(events, id).cls]
+BlockNumBorn(b) == {XOf(b.ids[i])[1] : i \in {j \in DOMAIN b.ids : XOf(b.ids[j]) # Absent /\ ~XSOf(b.ids[j])}}
+BlockStrBorn(b) == {XOf(b.ids[i])[1] : i \in {j \in DOMAIN b.ids : XOf(b.ids[j]) # Absent /\ XSOf(b.ids[j])}}
+RangeIndexOf(b) == IF BlockNumBorn(b) = {} THEN {} ELSE BlockNumBorn(b) \cup BlockStrBorn(b)
+NumMayMatch(b, q) == IF BlockNumBorn(b) = {} /\ BlockStrBorn(b) # {} THEN TRUE ELSE RangeMayMatch(RangeIndexOf(b), q)
 MayMatch(b, q) == CASE q.op = "all" -> TRUE
-                    [] q.op \in {"eq", "ne", "lt", "gt"} -> RangeMayMatch(BlockXs(b), q)
+                    [] q.op \in {"eq", "ne", "lt", "gt"} -> NumMayMatch(b, q)
                     [] OTHER -> Probe(q) \cap Bloom(b) # {}
 
 (* the no-false-negative obligation of every skip decision *)
